@@ -644,6 +644,12 @@ ASSUMPTIONS = [
     "operation); results that depend on uninitialised or freed memory are caught by running the same seeds under "
     "three allocator fill bytes (glibc M_PERTURB) and, in the thorough tier, under AddressSanitizer",
     "only the C++ Content API is exercised (the ak.* Python layer cannot be built here)",
+    "index arrays of slices: literal arrays, other arrays of the pool (Content::asslice(), what the Python layer does for "
+    "everything it does not hand to NumPy) - only as the single array-like item of a slice, because several index arrays "
+    "must broadcast and the Python layer refuses anything else -, or library-owned copies released before the slice is "
+    "applied",
+    "Identities are attached by setidentities() on a deep copy (the only mutator of the API never touches an operand); "
+    "layout helper methods are dispatched on the dynamic node class after VirtualArray::array(), as the Python layer does",
     "allocation failures: the node's operator new is replaced (native/awsim_core.cpp); armed with k, the k-th C++ allocation "
     "inside one operation throws std::bad_alloc once. Any std::exception is an acceptable answer; crashing, modified "
     "inputs, or a different result when the operation is repeated are not. The seam is suspended while the harness "
